@@ -90,7 +90,9 @@ type Adversary struct {
 
 	// statistics
 	ByzVotes, ByzProposals, Dups, Fired, Partitions, Claims int
-	AfterValidHolders                                       int // bad-block-after-valid template: honest validators that validated A and nothing since, when B was offered
+	AfterValidHolders                                       int  // bad-block-after-valid template: honest validators that validated A and nothing since, when B was offered
+	Relabel                                                 bool // templates: every Byzantine vote is sent under the indices of the other validators only
+	Relabelled                                              int
 	RejectedFirst                                           int // amnesia template: runs whose honest WALs start the height with a rejected proposal
 }
 
